@@ -185,6 +185,7 @@ func (ts *Schema) setContainsKey() {
 	for i := range ts.Indexes {
 		ix := &ts.Indexes[i]
 		if ix.Mode == 'u' {
+			ix.ContainsKey = false
 			for j := range ts.Indexes {
 				key := &ts.Indexes[j]
 				if key.Mode == 'k' && subset(ix.Columns, key.Columns) {
